@@ -6,9 +6,12 @@ row/column relabelling, identity for every conversion / clone / rebuild) and jud
 implementation output against it: dimensions, structural validity of the raw layout arrays, the matrix the raw
 arrays represent, the matrix operator()(i,j) shows, and the aliasing flags of clones.
 """
+import itertools
 import json
+import math
 import os
 import random
+import struct
 import time
 from fractions import Fraction
 
@@ -16,7 +19,7 @@ import vlib
 
 PROP = "C02"
 BLOCKS = [(2, 2), (2, 3), (3, 2)]
-CLONE_NAMES = {0: "shallow", 1: "layout", 2: "weak", 3: "deep"}
+CLONE_NAMES = {0: "shallow", 1: "layout", 2: "weak", 3: "deep", 4: "allocate"}
 
 
 # ---------------------------------------------------------------------------------------------
@@ -42,6 +45,23 @@ class State:
         for (i, _) in self.pat:
             h[i] = True
         return h
+
+
+def round_dt(x):
+    """Q -> double (mpq_get_d: truncation to 53 significant bits) -> float (IEEE round to nearest even) -> Q, written
+    with integer arithmetic and the C cast of struct.pack (independent of the Lean model)"""
+    if x == 0:
+        return Fraction(0)
+    n, d = abs(x.numerator), x.denominator
+    e = n.bit_length() - d.bit_length()
+    if (n << max(-e, 0)) < (d << max(e, 0)):
+        e -= 1                                   # 2^e <= n/d < 2^(e+1)
+    sh = 52 - e
+    m = (n << sh) // d if sh >= 0 else n // (d << -sh)
+    dbl = math.ldexp(m, -sh)                     # exact: m has 53 bits
+    flt = struct.unpack("f", struct.pack("f", dbl))[0]
+    r = Fraction(flt)
+    return -r if x < 0 else r
 
 
 def zeros(r, c):
@@ -182,7 +202,23 @@ def apply_op(s, c):
         return t, None
     if op == "clone":
         m = c.nat()
-        return (s.copy(), None) if m <= 3 else (s, "bad")
+        return (s.copy(), None) if m <= 4 else (s, "bad")
+    if op in ("layoutz", "layouta"):
+        if op == "layouta" and c.nat() not in (0, 1, 3, 4):
+            return s, "bad"
+        if s.fmt == "dense":
+            return s, "bad"
+        t = s.copy()
+        t.M = zeros(s.rows, s.cols)          # same pattern, fresh zero values
+        return t, None
+    if op == "graphz":
+        if s.fmt != "csr":
+            return s, "bad"
+        t = s.copy()
+        t.M = zeros(s.rows, s.cols)
+        if s.nnz() == 0:
+            return t, "defect:D5:Graph(as_is, csr) of an entry-free matrix throws"
+        return t, None
     if op == "layout":
         return (s, "bad") if s.fmt == "dense" else (s.copy(), None)
     if op == "graph":
@@ -197,17 +233,21 @@ def apply_op(s, c):
         return transpose_state(s), None
     if op == "perm":
         p, q = c.nats(), c.nats()
-        if s.fmt != "csr":
+        if s.fmt not in ("csr", "bcsr"):
             return s, "bad"
         if not p and not q:
             return s.copy(), None
-        if len(p) != s.rows or len(q) != s.cols:
+        bh, bw = (s.bh, s.bw) if s.fmt == "bcsr" else (1, 1)      # BCSR: permutations of the block rows / columns
+        if len(p) != s.rows // bh or len(q) != s.cols // bw:
             return s.copy(), "abort:permutation size does not match the matrix (XASSERTM)"
         t = s.copy()
         if s.nnz() == 0:
-            return t, "defect:D1:permute of an entry-free matrix crashes"
-        t.M = [[s.M[p[i]][q[j]] for j in range(s.cols)] for i in range(s.rows)]
-        t.pat = {(i, j) for i in range(s.rows) for j in range(s.cols) if (p[i], q[j]) in s.pat}
+            return t, ("defect:D1:permute of an entry-free matrix crashes" if s.fmt == "csr" else
+                       "defect:D9:BCSR permute of an entry-free matrix crashes")
+        P = [p[i // bh] * bh + i % bh for i in range(s.rows)]
+        Qc = [q[j // bw] * bw + j % bw for j in range(s.cols)]
+        t.M = [[s.M[P[i]][Qc[j]] for j in range(s.cols)] for i in range(s.rows)]       # B(i,j) = A(pr i, pc j)
+        t.pat = {(i, j) for i in range(s.rows) for j in range(s.cols) if (P[i], Qc[j]) in s.pat}
         return t, None
     if op == "trs":
         if s.fmt not in ("csr", "dense") and not (s.fmt == "bcsr" and s.bh == s.bw):
@@ -221,7 +261,7 @@ def apply_op(s, c):
             return (transpose_state(s), None) if k in (0, 2, 3) else (s, "bad")
         return s, "bad"
     if op == "convs":
-        return s.copy(), "defect:D8:a.convert(a) destroys the container (Container::assign has no self check)"
+        return s.copy(), None          # self-assignment is a no-op (D8, fixed in /repo by 5f789ddc8)
     if op == "convt":
         k, f = c.nat(), c.tok()
         if f not in ("csr", "banded", "cscr", "dense", "bcsr"):
@@ -246,7 +286,11 @@ def apply_op(s, c):
     if op == "it":
         return s.copy(), None
     if op == "dt":
-        return (s.copy(), None) if s.fmt in ("csr", "dense", "banded") else (s, "bad")
+        if s.fmt not in ("csr", "dense", "banded"):
+            return s, "bad"
+        t = s.copy()
+        t.M = [[round_dt(x) for x in row] for row in s.M]      # every stored value goes through float once
+        return t, None
     return s, "bad"
 
 
@@ -388,15 +432,15 @@ def gen_op(rng, s):
     f = s.fmt
     if f == "csr":
         ops = ["tocsr", "tobanded", "tobanded", "tocscr", "tocscr", "clone", "clone", "layout", "graph", "tr", "tr", "tri",
-               "perm", "perm", "perm", "it", "dt"]
+               "perm", "perm", "perm", "it", "dt", "layoutz", "layouta", "graphz"]
     elif f == "banded":
-        ops = ["tocsr", "tocsr", "tocsr", "tobanded", "clone", "layout", "it", "dt"]
+        ops = ["tocsr", "tocsr", "tocsr", "tobanded", "clone", "layout", "it", "dt", "layoutz", "layouta"]
     elif f == "cscr":
-        ops = ["tocsr", "tocsr", "tocscr", "clone", "layout", "it"]
+        ops = ["tocsr", "tocsr", "tocscr", "clone", "layout", "it", "layoutz", "layouta"]
     elif f == "dense":
         ops = ["tr", "tr", "tri", "clone", "it", "dt"]
     else:
-        ops = ["tocsr", "tocsr", "tr", "tr", "clone", "layout", "it"]
+        ops = ["tocsr", "tocsr", "tr", "tr", "clone", "layout", "it", "perm", "perm", "layoutz", "layouta"]
     if rng.random() < 0.3:
         # the two-argument members with an aliased or pre-existing target
         alias = ["clonet", "clonet", "copyt", "copys", "convt-same", "convt-same"]
@@ -424,17 +468,20 @@ def gen_op(rng, s):
         return a
     op = rng.choice(ops)
     if op == "clone":
-        return "clone %d" % rng.randrange(4)
+        return "clone %d" % rng.randrange(5)
+    if op == "layouta":
+        return "layouta %d" % rng.choice([0, 1, 3, 4])
     if op == "perm":
+        nr, nc = (s.rows // s.bh, s.cols // s.bw) if f == "bcsr" else (s.rows, s.cols)
         if rng.random() < 0.03:
-            return "perm %s %s" % (fl(rand_perm(rng, s.rows + 1)), fl(rand_perm(rng, s.cols)))
-        return "perm %s %s" % (fl(rand_perm(rng, s.rows)), fl(rand_perm(rng, s.cols)))
+            return "perm %s %s" % (fl(rand_perm(rng, nr + 1)), fl(rand_perm(rng, nc)))
+        return "perm %s %s" % (fl(rand_perm(rng, nr)), fl(rand_perm(rng, nc)))
     return op
 
 
 def gen_case(rng, big):
     has_dt = rng.random() < 0.25
-    init = gen_init(rng, big, has_dt)
+    init = gen_init(rng, big, has_dt and rng.random() < 0.5)   # dt: float-representable values or arbitrary rationals
     s = parse_init(Tk(init))
     n = rng.choice([0, 1, 1, 2, 2, 3, 3, 4, 5, 6, 8, 12])
     ops = []
@@ -457,8 +504,40 @@ def gen_case(rng, big):
     return "%d %s %d %s" % (rng.choice([32, 64]), init, len(ops), " ".join(ops))
 
 
+def gen_vec_case(rng):
+    n = rng.choice([0, 1, 2, 3, 5, 8])
+    x = [rand_val(rng, False) for _ in range(n)]
+    ops = []
+    for _ in range(rng.randrange(1, 4)):
+        k = rng.random()
+        ops.append("vperm %s" % fl([] if k < 0.1 else rand_perm(rng, n + 1) if k < 0.15 else rand_perm(rng, n)))
+        if k >= 0.1 and k < 0.15:
+            break
+    return "%d vec %s %d %s" % (rng.choice([32, 64]), flq(x), len(ops), " ".join(ops))
+
+
 def gen_cases(rng, count, big=False):
-    return [gen_case(rng, big).strip() for _ in range(count)]
+    return [(gen_vec_case(rng) if rng.random() < 0.02 else gen_case(rng, big)).strip() for _ in range(count)]
+
+
+def perm_enumeration():
+    """deterministic part of every run: EVERY pair of a row and a column permutation on a rectangular CSR matrix with
+    an empty row (3x4: 6 x 24 pairs) and on a 2x3-block BCSR matrix (2 x 6 pairs, both block shapes), each judged entry
+    by entry against B(i,j) = A(pr i, pc j) and layout-checked; plus every permutation of a 4-vector"""
+    out = []
+    csr = "csr 3 4 4 0 3 3 5 5 0 1 3 0 2 5 1/2 -3/1 5/7 2/1 -1/3"
+    for p in itertools.permutations(range(3)):
+        for q in itertools.permutations(range(4)):
+            out.append("32 %s 1 perm %s %s" % (csr, fl(list(p)), fl(list(q))))
+    for bh, bw in ((2, 3), (3, 2)):
+        vals = flq([Fraction(k + 1, 1 + k % 3) for k in range(4 * bh * bw)])
+        b = "bcsr %d %d 2 3 3 0 3 4 4 0 1 2 1 %s" % (bh, bw, vals)
+        for p in itertools.permutations(range(2)):
+            for q in itertools.permutations(range(3)):
+                out.append("64 %s 2 perm %s %s tocsr" % (b, fl(list(p)), fl(list(q))))
+    for p in itertools.permutations(range(4)):
+        out.append("32 vec 4 1/1 2/1 3/1 4/1 1 vperm %s" % fl(list(p)))
+    return out
 
 
 # past failures and the corner cases of the property text, replayed first on every run
@@ -509,7 +588,21 @@ CORPUS += [
     "32 banded 3 4 2 1 3 6 1/1 2/1 3/1 4/1 5/1 6/1 4 convt 1 csr convt 3 banded convt 4 banded copyt 1",
     "32 csr 2 3 0 0 0 4 trs trt 1 trt 3 convt 4 csr",
     "32 csr 2 3 3 0 2 3 3 0 2 1 3 1/1 2/1 3/1 1 clones 2",      # specified abort (self-clone)
-    "32 csr 2 3 3 0 2 3 3 0 2 1 3 1/1 2/1 3/1 1 convs",          # c02-edge:D8
+    "32 csr 2 3 3 0 2 3 3 0 2 1 3 1/1 2/1 3/1 1 convs",          # D8 (fixed by 5f789ddc8): a.convert(a) is a no-op
+    "32 banded 3 4 2 1 3 6 1/1 2/1 3/1 4/1 5/1 6/1 2 convs tocsr",
+    # extension round: rebuilds, Allocate clones, block / vector permutation, non-exact data-type round trip
+    "32 csr 2 3 3 0 2 3 3 0 2 1 3 1/1 2/1 3/1 3 layoutz clone 4 graphz",
+    "32 csr 2 3 3 0 2 3 3 0 2 1 3 1/1 2/1 3/1 2 layouta 3 layouta 4",
+    "32 bcsr 2 3 1 2 2 0 1 1 1 6 1/1 2/1 3/1 4/1 5/1 6/1 3 layoutz layouta 1 clone 4",
+    "32 bcsr 3 2 2 1 3 0 1 2 2 0 0 12 1/1 2/1 3/1 4/1 5/1 6/1 7/1 8/1 9/1 10/1 11/1 12/1 2 layoutz layouta 0",
+    "32 banded 3 4 2 1 3 6 1/1 2/1 3/1 4/1 5/1 6/1 2 layoutz layouta 0",
+    "64 cscr 4 3 3 0 1 3 3 2 0 1 3 5/1 6/1 7/1 2 1 3 2 layoutz clone 4",
+    "32 csr 2 3 0 0 0 2 layoutz clone 4",
+    "32 csr 2 3 3 0 2 3 3 0 2 1 3 1/3 -2/7 123456789/1000 2 dt it",
+    "32 dense 2 2 4 1/3 16777217/1 -33554435/2 5/1 2 dt tri",
+    "32 banded 3 4 2 1 3 6 1/10 2/3 3/1 4/1 5/1 1/1048577 1 dt",
+    "32 bcsr 2 3 2 2 0 0 0 1 perm 2 1 0 2 1 0",               # c02-edge:D9
+    "32 csr 2 3 0 0 0 1 graphz",                               # c02-edge:D5
     "32 dense 2 2 4 1/1 2/1 3/1 4/1 1 convs",
 ]
 
@@ -544,6 +637,9 @@ def parse_segment(seg):
     """'[K a b c d] [S <dump of the source afterwards>] <dump>' -> dict of the (target) dump + K + src (dict or None)"""
     c = Tk(seg)
     K = None
+    AL = None
+    if c.peek() in ("AL0", "AL1"):
+        AL = c.tok() == "AL1"
     if c.peek() == "K":
         c.tok()
         K = (c.nat(), c.nat(), c.nat(), c.nat())
@@ -552,7 +648,7 @@ def parse_segment(seg):
         c.tok()
         src = parse_dump(c)
     r = parse_dump(c)
-    r["K"], r["src"] = K, src
+    r["K"], r["src"], r["AL"] = K, src, AL
     if c.p != len(c.t):
         raise ValueError("trailing tokens in segment")
     return r
@@ -561,6 +657,7 @@ def parse_segment(seg):
 def parse_dump(c):
     """-> dict(fmt, rows, cols (scalar dims), bh, bw, raw matrix from arrays, D matrix, has_val, has_idx, err)"""
     r = {"err": None, "bh": 1, "bw": 1}
+    p_start = c.p
     fmt = c.tok()
     r["fmt"] = fmt
     if fmt == "csr":
@@ -651,6 +748,10 @@ def parse_dump(c):
     else:
         raise ValueError("unknown format in output: " + fmt)
     r["rows"], r["cols"], r["raw"] = rows, cols, raw
+    r["nval"] = len(val)
+    # everything before the value array: format, dimensions, scalars, index arrays (= the layout)
+    toks = c.t[p_start:c.p]
+    r["layout"] = tuple(toks[:len(toks) - len(val) - 1])
     if c.tok() != "D":
         raise ValueError("D expected")
     d = [c.fr() for _ in range(rows * cols)]
@@ -670,7 +771,7 @@ def expected_K(opname, mode, seg):
     return (0, 0, 0, 0)
 
 
-TARGET_OPS = ("trt", "convt", "clonet", "copyt")
+TARGET_OPS = ("trt", "convt", "clonet", "copyt", "layouta")
 
 
 def judge_dump(s, g):
@@ -690,7 +791,44 @@ def judge_dump(s, g):
     return None
 
 
+def oracle_vec(case, out):
+    c = Tk(case)
+    c.nat(); c.tok()
+    x = c.frs()
+    n = c.nat()
+    exp = [x]
+    for _ in range(n):
+        if c.tok() != "vperm":
+            return None if out == "BAD-OP" else "bad vector case accepted"
+        p = c.nats()
+        if p and len(p) != len(x):
+            return None if out.startswith("ABORT") else "permutation of the wrong size not rejected"
+        if p:
+            x = [x[k] for k in p]            # DenseVector::permute: x'[i] = x[perm[i]]
+        exp.append(x)
+    if is_abnormal(out):
+        return "vector permutation ended with " + out[:60]
+    segs = out.split("|")[1:]
+    if len(segs) != len(exp):
+        return "%d vector segments, expected %d" % (len(segs), len(exp))
+    for i, (g, e) in enumerate(zip(segs, exp)):
+        t = Tk(g)
+        if t.tok() != "vec" or t.frs() != e:
+            return "vector after %d permutations is %s, expected %s" % (i, g.strip(), [str(v) for v in e])
+    return None
+
+
+def is_vec(case):
+    t = case.split(None, 2)
+    return len(t) > 1 and t[1] == "vec"
+
+
 def oracle(case, out):
+    if is_vec(case):
+        try:
+            return oracle_vec(case, out)
+        except (IndexError, ValueError) as e:
+            return "unparsable vector output (%s)" % e
     try:
         it, states, ops, tag, k = simulate(case)
     except Exception as e:
@@ -735,10 +873,19 @@ def oracle(case, out):
                     return "%s: SOURCE afterwards: %s" % (where, errs[0])
             elif g["src"] is not None:
                 return "%s: unexpected source report" % where
-            if o[0] in ("clone", "layout", "clonet"):
+            if o[0] in ("layoutz", "layouta", "graphz"):
+                # rebuilt from the layout / graph: exactly the source's layout (same scalars and index arrays), a value
+                # array of the same length, zero values; the pool allocation must cover the claimed length
+                prev = segs[idx - 1]
+                if g["layout"] != prev["layout"] or g["nval"] != prev["nval"]:
+                    return "%s: the rebuilt container has another layout / value count than its source" % where
+                if o[0] != "graphz" and g["AL"] is not True:
+                    return "%s: value array allocation smaller than the number of values" % where
+            if o[0] in ("clone", "layout", "clonet", "layoutz", "layouta"):
                 if g["K"] is None:
                     return "%s: no aliasing observation" % where
-                exp = expected_K(o[0], int(o[2]) if o[0] == "clonet" else int(o[1]) if o[0] == "clone" else 1, g)
+                exp = expected_K("layout" if o[0].startswith("layout") else o[0],
+                                 int(o[2]) if o[0] == "clonet" else int(o[1]) if o[0] == "clone" else 1, g)
                 if g["K"] != exp:
                     return "%s: aliasing flags (val shared, idx shared, src->clone, clone->src) = %s, expected %s" % (
                         where, g["K"], exp)
@@ -746,6 +893,8 @@ def oracle(case, out):
 
 
 def nontrivial(case):
+    if is_vec(case):
+        return len(case.split()) > 6
     try:
         it, states, ops, tag, k = simulate(case)
     except Exception:
@@ -757,6 +906,8 @@ def nontrivial(case):
 
 
 def describe(case):
+    if is_vec(case):
+        return ["init:vec", "op:vperm"]
     try:
         it, states, ops, tag, k = simulate(case)
     except Exception:
@@ -786,6 +937,8 @@ def describe(case):
 def signature(case, out, why):
     """known findings are keyed by the input class of the operation at which the chain stops (c02-edge:Dk); any
     other failure by format + operation + reason"""
+    if is_vec(case):
+        return "vec:vperm:" + (why or "")[:40]
     try:
         it, states, ops, tag, k = simulate(case)
     except Exception:
@@ -799,11 +952,13 @@ def signature(case, out, why):
 def model_filter(case):
     """the Lean model shows the intended result where the real code crashes (D1, D3, D5); it reproduces the aborts
     of D6 / D7"""
+    if is_vec(case):
+        return True
     try:
         it, states, ops, tag, k = simulate(case)
     except Exception:
         return True
-    return not (tag is not None and tag.startswith("defect:") and tag.split(":")[1] in ("D1", "D3", "D5", "D8"))
+    return not (tag is not None and tag.startswith("defect:") and tag.split(":")[1] in ("D1", "D3", "D5", "D9"))
 
 
 def canon(out):
@@ -830,7 +985,7 @@ def main(argv):
         if os.path.isdir(cdir):
             for fn in sorted(os.listdir(cdir)):
                 extra += [l.strip() for l in open(os.path.join(cdir, fn)) if l.strip() and not l.startswith("#")]
-        cases = CORPUS + extra + (gen_cases(rng, 6000) if args.tier == "quick" else gen_cases(rng, 150000, big=True))
+        cases = CORPUS + extra + perm_enumeration() + (gen_cases(rng, 6000) if args.tier == "quick" else gen_cases(rng, 150000, big=True))
     st = vlib.Stream("chains", cases, [binary], vlib.driver_cmd(PROP), oracle=oracle, nontrivial=nontrivial,
                      describe=describe, signature=signature, canon=canon, model_filter=model_filter)
     stats_rule = ("random matrices in CSR / CSCR / banded / BCSR(2x2,2x3,3x2) / dense form (dims 0..6, thorough ..14; entry-free, "
@@ -842,9 +997,12 @@ def main(argv):
                   "or a format change or an entry-free matrix")
     rc = vlib.run_pipeline(PROP, args.tier, args.seed, lean, [st], t0, assumptions=[
         "Index modelled as unbounded Nat (no 32/64-bit overflow at the sizes FEAT can allocate)",
-        "data-type round trip (Q -> double -> float -> Q) exercised on float-representable values only",
-        "input classes of the open known findings c02-edge:D1/D3/D5/D6/D7/D8 are generated and judged; where the real "
-        "code crashes (D1, D3, D5, D8) the Lean model shows the intended result and is not compared",
+        "data-type round trip Q -> double -> float -> Q: compared exactly against truncation to 53 bits followed by "
+        "round-to-nearest-even to 24 bits (what mpq_get_d and the C cast do); exponent range not exercised",
+        "index-type round trip u32 <-> u64: every index that can occur is < 2^32 (dimensions of allocatable matrices), "
+        "the model passes them through mod 2^32 (C02.stepX_itx_eq: identity when they fit)",
+        "input classes of the open known findings c02-edge:D1/D3/D5/D6/D7/D9 are generated and judged; where the real "
+        "code crashes (D1, D3, D5, D9) the Lean model shows the intended result and is not compared",
         "a target that is a shallow clone of the source may show the result in the source as well (documented sharing "
         "of the data arrays); every other source must be unchanged after a two-argument member call"],
         extra_cov={"rule": stats_rule})
